@@ -22,10 +22,41 @@ NOTES = ("Technique family: machine-checked proof in Lean 4. Every claimed prope
          "hand-written model in lean/Rml/Model, tied to /repo by the correspondence run of tools/check.py. See DESIGN.md.")
 
 PROPS = {
-    "C01": dict(lean=["Rml.Props.C20"], families=["chunk"], level_text="wip", level_note="wip"),
-    "C07": dict(lean=["Rml.Props.C20"], families=["chunk"], level_text="wip", level_note="wip"),
-    "C08": dict(lean=["Rml.Props.C20"], families=["chunk"], level_text="wip", level_note="wip"),
-    "C19": dict(lean=["Rml.Props.C20"], families=["chunk"], level_text="wip", level_note="wip"),
+    "C01": dict(
+        lean=["Rml.Props.C01", "Rml.Props.C15"], families=["chunk"],
+        level_text="PARTIAL proof. Proved for all inputs on the models of serializer.rs / deserializer.rs: the serializer accepts exactly payloads ≤ 16,777,215 bytes (C01_accepts), every accepted message yields a non-empty packet incl. empty payloads (C01_nonempty), and what the deserializer returns is independent of how the bytes are split into calls, for every byte string (C01_any_partition = Thm P). NOT yet a theorem: the round-trip equation for every history (Thm B ∘ Thm A); it is covered by the byte-exact correspondence run (model ≡ real serializer and real deserializer on ~13,000 histories incl. all length-≤2/3 sequences over a 38-symbol alphabet) and the direct round-trip oracle on the real code.",
+        level_note="Trusted: Lean kernel, standard axioms; hand model tied to code by the `chunk` family (generator-bounded); the round-trip clause itself currently rests on differential testing, not on a theorem. Depends on fixes F1 (empty payload), F2 (chunk size 0).",
+    ),
+    "C06": dict(
+        lean=["Rml.Props.C06", "Rml.Props.C15"], families=["foreign"],
+        level_text="PARTIAL proof. Proved for all inputs: the deserializer's basic-header reader equals the specification reader's on every byte string, and reads every csid 2..65599 in each legal 1/2/3-byte form with every format (C06_basic_header, C06_csid_form1/2/3); decoding is independent of fragmentation (Thm P). NOT yet a theorem: agreement with the specification reader (Rml/Spec/Chunk.lean) on every legal sequential stream (Thm B); covered by the `foreign` family: an independent sender written from RTMP 1.0 §5.3.1 exercising every sender freedom; real deserializer, Lean model, Lean specification reader and Rust reference decoder must all agree with the messages that were encoded.",
+        level_note="Trusted: adequacy of Spec/Chunk.lean w.r.t. RTMP 1.0 §5.3.1 (human-read, 120 lines); Lean kernel; correspondence bounded by the foreign sender's generator (distribution in evidence). Depends on fix F4 (extended timestamp delta).",
+    ),
+    "C07": dict(
+        lean=["Rml.Props.C07"], families=["chunk"],
+        level_text="PARTIAL proof. Proved for every chunk the serializer model can emit: csids legal (2..6) and minimally encoded in one byte; a compressed format is chosen only when the omitted fields equal the stored predecessor's; 24-bit field = min(field, 0xFFFFFF) with the 32-bit extended field present exactly when field ≥ 0xFFFFFF; no piece exceeds the chunk size in force and the pieces are the payload; a new chunk size is announced under the old size before its first use. NOT yet a theorem: that the specification reader decodes the output of every history into exactly those messages (Thm A); covered by the correspondence run and by the independent reference decoder oracle (!chunk.ref) on the real serializer's bytes.",
+        level_note="Trusted: Lean kernel; model tied to serializer.rs byte-exactly by the `chunk` family; the Rust reference decoder is cross-checked against the Lean specification reader on every run (spec.feed). Depends on fix F1.",
+    ),
+    "C08": dict(
+        lean=["Rml.Props.C08"], families=["chunk"],
+        level_text="PARTIAL proof. Proved for every serializer state: the first chunk of a message has exactly the format firstFmt computes (addChunk_first_byte), which is the full format 0 whenever the header last sent on that chunk stream was in a droppable packet (C08_full_header_after_droppable); the stored header carries the flag of the packet it was sent in (C08_flag_recorded); chunk-size announcements are never droppable. NOT yet a theorem: decodability of the surviving packets for every history and every subset (Thm B ∘ Thm A with drops); covered by correspondence under drop masks (ALL masks for the small-scope histories) plus the round-trip and reference-decoder oracles on the real code.",
+        level_note="Trusted: Lean kernel; model tied to code by the `chunk` family; subsets are enumerated exhaustively only for small-scope histories, sampled otherwise. Depends on fix F1.",
+    ),
+    "C15": dict(
+        lean=["Rml.Props.C15"], families=["chunk", "foreign"],
+        level_text="Deserializer part fully proved: Thm P (C15_des, C15_des_partition) — for EVERY deserializer state and EVERY byte stream (valid or not), any two partitions into calls (any number, any sizes incl. empty) deliver the same messages and the same error after the same messages, and leave the same state when there is no error; the drain loop never stops for lack of fuel (C15_des_no_fuel). Proof: prefix-monotonicity of each of the 7 stages + a strictly decreasing measure 8·|buffer|+rank(stage). Session part (events/responses, K2) is added with the session models.",
+        level_note="Trusted: Lean kernel; the model's `feed` is the documented consumer loop (get_next_message(bytes), then (&[]) until None, honouring SetChunkSize) — tied to the real ChunkDeserializer by des.feed correspondence on library-produced, foreign and mutated streams under many partitions, plus the direct two-partition oracle (!des.split). Not mirrored: one dead store (DESIGN.md §1).",
+    ),
+    "C16": dict(
+        lean=["Rml.Props.C16"], families=["foreign"],
+        level_text="The property is FALSE of the library (known finding K1): machine-checked counterexample C16_counterexample (a chunk of another chunk stream arriving mid-message makes the deserializer fail) against C16_spec_reads_it (the specification reader delivers both messages). The check replays interleaved streams from the independent sender on the real deserializer on every run: failures on overlapping interleavings are the listed finding; any failure on a non-overlapping multi-stream trace, or any model/implementation disagreement about what goes wrong, is a violation.",
+        level_note="Known finding K1 in known_findings.json, keyed by 'a chunk on another chunk stream arrives while a message is partially reassembled'. Trusted: Lean kernel (decide +kernel on concrete streams), Spec/Chunk.lean adequacy, foreign sender.",
+    ),
+    "C19": dict(
+        lean=["Rml.Props.C19"], families=["chunk", "amf"],
+        level_text="Proved on the models: both chunk-size setters refuse exactly 0 and values > 2^31-1 and honour every other value; payloads are refused exactly above 16,777,215 bytes; every reachable serializer state has chunk size ≥ 1 (induction over arbitrary histories), hence no operation ever reaches the model's explicit divergence outcome `.hang` (C19_no_hang), the slicing loop runs ≤ len+1 times; AMF0 strings/names > 65,535 bytes are refused. Session constructors: they pass the configured value to exactly these setters (checked with the session models). Runtime half (real time/memory) is observed by the harness under a per-shard timeout, not proved.",
+        level_note="Trusted: Lean kernel; model tied to code by the `chunk` family's configuration-edge cases (all setter edges, 16 MiB±1 payloads) and the `amf` family's length edges. Depends on fixes F2 (chunk size 0) and F7 (AMF0 names).",
+    ),
     "C04": dict(
         lean=["Rml.Props.C04"], families=["amf"],
         level_text="Theorem C04_roundtrip: for EVERY value sequence (unbounded size, any nesting the encoder accepts, all 2^64 number patterns, any UTF-8, any enumeration order of every map) the encoder model's output is decoded by the decoder model, consuming all bytes, to exactly that sequence; C04_errors characterises exactly when encoding is refused (string/name > 65535 bytes, empty name, nesting > 128). Proved via the specification relation (encoder ⊆ spec, decoder inverts spec) by mutual structural induction. The model is tied to amf0/src by the `amf` correspondence family on every run.",
